@@ -2,7 +2,8 @@
 """MANIFEST.setup_cmd: regenerate Gen from the repository, build the whole Lean library and the driver."""
 import os, subprocess, sys
 sys.path.insert(0, os.path.dirname(os.path.abspath(__file__)))
-import extract, vlib
+import extract, vlib, mkdriver
+mkdriver.run()
 broken = extract.run(vlib.SRC, os.path.join(vlib.LEAN, 'QsmtpModel', 'Gen'))
 for b in broken:
     print('extract: BROKEN', b)
